@@ -339,7 +339,14 @@ C       IF (DABS(RAT-1D0).GT.1D-6) PRINT 8004, AXI
  8004 FORMAT('EQUAL-SURFACE-AREA-SPHERE RADIUS=',F8.4)
       A=RAT*AXI
       XEV=2D0*P*A/LAM
-      IXXX=XEV+4.05D0*XEV**0.333333D0
+      XXX=XEV+4.05D0*XEV**0.333333D0
+C     test the real value first: for a huge (or infinite, NaN) size
+C     parameter the conversion to an integer overflows
+      IF (.NOT.(XXX.LT.DBLE(NPN1))) THEN
+         MAXITER=-1
+         RETURN
+      ENDIF
+      IXXX=XXX
       INM1=MAX0(4,IXXX)
 C       IF (INM1.GE.NPN1) PRINT 7333, NPN1
       IF (INM1.GE.NPN1) THEN
